@@ -381,7 +381,8 @@ def write_evidence(prop, tier, seed, records, violations, annotations, cmds, vin
         "wall_s": round(wall, 2),
         "violations": len([v for v in violations if not v["known"]]),
     }
-    common.write_json(os.path.join(VERIF, "evidence", "%s.json" % prop), ev)
+    # (runs against a deliberately modified tree, e.g. tools/seed_eval.py, redirect their evidence elsewhere)
+    common.write_json(os.path.join(os.environ.get("VERIF_EVIDENCE_DIR") or os.path.join(VERIF, "evidence"), "%s.json" % prop), ev)
 
 
 if __name__ == "__main__":
